@@ -266,8 +266,10 @@ def run_pipe(ctx, data, case):
     mnames = sorted(case['mnames'])
     env = dict(os.environ)
     env['PYTHONPATH'] = common.REPO
+    # (the order in which -H lists the names must not matter)
+    given = list(reversed(mnames)) if len(data) % 2 else mnames
     code = ("import sys; from gemato.cli import main; "
-            "sys.exit(main(['gemato','hash','-H',%r,'-']))" % ' '.join(mnames))
+            "sys.exit(main(['gemato','hash','-H',%r,'-']))" % ' '.join(given))
     p = subprocess.Popen([common.PY, '-c', code], stdin=subprocess.PIPE,
                          stdout=subprocess.PIPE, stderr=subprocess.PIPE, env=env)
     pos = 0
@@ -560,8 +562,9 @@ def exec_fifo(ctx, case):
                     f.write(data[pos:])
             writer = threading.Thread(target=feed, daemon=True)
             writer.start()
+        given = list(reversed(mnames)) if len(data) % 2 else mnames
         code = ("import sys; from gemato.cli import main; "
-                "sys.exit(main(['gemato','hash','-H',%r,%r]))" % (' '.join(mnames), p))
+                "sys.exit(main(['gemato','hash','-H',%r,%r]))" % (' '.join(given), p))
         try:
             r = subprocess.run([common.PY, '-c', code], capture_output=True, env=env,
                                timeout=120)
